@@ -1,6 +1,6 @@
 (* C14 — user classes are constructed once with exactly the grammar attributes, and are left
    exactly as they were after loading, successful or not. *)
-From TxV Require Import Core.Base Gen.SrcUserCls Model.UserCls Proofs.UserClsProofs Proofs.UserClsLogProofs Proofs.UserClsSrcProofs.
+From TxV Require Import Core.Base Gen.SrcUserCls Model.UserCls Proofs.UserClsProofs Proofs.UserClsLogProofs Proofs.UserClsInitProofs Proofs.UserClsSrcProofs.
 
 (* Restoration, for EVERY history of the load machine: any sequence of operations (any mix of
    main loads, imported models, loads started from callbacks while another load runs, and a
@@ -55,10 +55,23 @@ Theorem C14_init_after_resolution_before_processors : forall d0 ops c,
 Proof. exact src_init_order. Qed.
 Print Assumptions C14_init_after_resolution_before_processors.
 
-(* PARTIAL (C14_init_once): "each user object is initialised exactly once in a successful load,
-   at most once otherwise" is checked on the implementation by the property oracle on every
-   scenario and is visible in the model (Init pops the head of the pending list; object ids come
-   from a counter), but the NoDup invariant over the pending lists is not proved here. *)
+(* Initialised at most once, in every history: the list of the objects whose __init__ was called
+   (read off the event log) has no duplicates, and an initialised object is never pending again. *)
+Theorem C14_init_at_most_once : forall d0 ops,
+  let s := run replace_names restore_names (init d0) ops in
+  NoDup (inited (s_log s)) /\ (forall x, In x (inited (s_log s)) -> ~ In x (pend (s_ctxs s))).
+Proof. exact src_init_at_most_once. Qed.
+Print Assumptions C14_init_at_most_once.
+
+(* ... and exactly once in a load that succeeds: in every history, when the running load can
+   return (all its models are ended, no object is pending: the guard of Finish), every user object
+   it has allocated (c_objs, written by Alloc only) has been initialised. *)
+Theorem C14_init_exactly_once_on_success : forall d0 ops c rest,
+  let s := run replace_names restore_names (init d0) ops in
+  s_ctxs s = c :: rest -> c_frames c = [] -> (c_phase c = Ending [] \/ c_phase c = Processing) ->
+  forall x, In x (c_objs c) -> In x (inited (s_log s)).
+Proof. exact src_all_initialised_at_finish. Qed.
+Print Assumptions C14_init_exactly_once_on_success.
 
 (* non-vacuity: a main model with an imported model and a failure, then a successful load *)
 Example C14_nonvacuous :
@@ -79,3 +92,13 @@ Example C14_order_nonvacuous :
   map (fun c => map is_init (c_trace c)) (s_ctxs s) = [[false; true; false; false]].
 Proof. vm_compute. reflexivity. Qed.
 Print Assumptions C14_order_nonvacuous.
+
+(* non-vacuity of the exactly-once statement: a load with three objects at the point where it can
+   finish *)
+Example C14_once_nonvacuous :
+  let s := run replace_names restore_names (init (fun _ => Absent))
+             [Begin true false true; Alloc; Alloc; Complete; Complete; Begin false false true; Alloc; Complete;
+              ResolveOk; EndModel; Init true; Init true; EndModel; Init true] in
+  map c_objs (s_ctxs s) = [[2; 3; 6]] /\ map c_frames (s_ctxs s) = [[]] /\ inited (s_log s) = [6; 2; 3].
+Proof. vm_compute. repeat split; reflexivity. Qed.
+Print Assumptions C14_once_nonvacuous.
